@@ -216,6 +216,13 @@ def build_ops(ps):
             args = ()
         ops["L:" + m] = (lambda m, args: lambda p: getattr(p._proc, m)(*args))(m, args)
     build_ops.layer_skipped = skipped
+    if not win:
+        # the front end's signalling path has platform-conditional steps of its own (OpenBSD: "kill() lies for zombies")
+        ops["kill"] = lambda p: p.kill()
+        ops["terminate"] = lambda p: p.terminate()
+        ops["send_signal_term"] = lambda p: p.send_signal(signal.SIGTERM)
+        ops["suspend"] = lambda p: p.suspend()
+        ops["resume"] = lambda p: p.resume()
     if win:
         ops["num_handles"] = lambda p: p.num_handles()
         ops["kill"] = lambda p: p.kill()
@@ -357,6 +364,7 @@ def run_exit_case(platform, opname, pid, prime, salt=1):
     return r
 
 
+POSIX_SIGNAL_OPS = {"kill", "terminate", "send_signal_term", "suspend", "resume"}
 SETTERS_AND_SIGNALS = {"nice_set", "cpu_affinity_set", "rlimit_set", "ionice_set", "kill", "terminate", "send_signal_term",
                        "suspend", "resume", "wait0", "oneshot"}
 # Solaris exe(): a failed readlink of /proc/PID/path/a.out is tolerated by design ("" / the cmdline guess, the fault cases
@@ -701,8 +709,19 @@ def fault_cases(platform, opname, pid, n, tier, pid0_listed=True):
         faults += FAULTS_THOROUGH
         if platform == "windows":
             faults += FAULTS_WIN_MORE
+    if getattr(setup(platform)["w"].plat, "IS_64_BIT", True) is False:
+        # (EOVERFLOW there is the documented "64-bit process seen by a 32-bit interpreter": answered with zeros / skipped)
+        faults = [f for f in faults if f["errno"] != E.EOVERFLOW]
     out = []
     zcodes = setup(platform)["platstub"].ZOMBIE_CODES.get(platform, [])
+    if opname in POSIX_SIGNAL_OPS and platform != "windows":
+        # the only call point is kill(2), whose errors are ESRCH, EPERM and EINVAL
+        faults = [f for f in faults if f["errno"] in (E.ESRCH, E.EPERM, E.EINVAL)]
+        pair_faults = [f for f in pair_faults if f["errno"] in (E.ESRCH, E.EPERM, E.EINVAL)]
+    if opname in POSIX_SIGNAL_OPS and platform not in ("windows", "openbsd"):
+        # kill(2) succeeds on a zombie everywhere but on OpenBSD: an ESRCH from it with the process still listed as a zombie
+        # is not a situation these kernels produce
+        zcodes = []
     base = dict(k="fault", platform=platform, op=opname, pid=pid)
     if not pid0_listed:
         base["pid0_listed"] = False
@@ -1525,6 +1544,8 @@ def plan(tier, seed):
     for P in PLATS:
         shards.append(dict(kind="faults", variant=P, tier=tier, seed=seed))
         shards.append(dict(kind="static", variant=P, tier=tier, seed=seed))
+    # the Solaris layer has code for a 32-bit interpreter looking at 64-bit processes (IS_64_BIT False): same contract
+    shards.append(dict(kind="faults", variant="sunos", tier=tier, seed=seed, bits=32))
     return shards
 
 
@@ -1615,6 +1636,11 @@ def run_shard(shard):
     if kind == "cases":
         platform = platform or shard["cases"][0]["platform"]
     env = setup(platform)
+    if shard.get("bits") == 32:
+        if not hasattr(env["w"].plat, "IS_64_BIT"):
+            raise RuntimeError("the 32-bit variant has nothing to switch in this platform layer")
+        env["w"].plat.IS_64_BIT = False
+        acc.count("shards_run_as_a_32_bit_interpreter")
     tier = shard.get("tier", "quick")
     seed = int(shard.get("seed", 0) or 0)
     pid = PID + 13 * (seed % 1000)          # the seed only moves the pid and the record values
